@@ -132,6 +132,7 @@ LEXEMES = KEYWORDISH + [
     "<:", ":>", "<%", "%>", "%:", "??(", "??)", "??<", "??>", "??=", "??!", "??'", "??-", "??/", "\\\n", "??/\n",
     "// c", "// c\n", "/* c */", "/*\n\tc\n*/", "/* a\\\nb */", "\"a\\\nb\"", "@", "$", "`", "\\", "é", "٣", "'", "\"", "''", "'ab'",
     "\f", "\v", "\r", "\r\n", "\x1c", "\x85", "\xa0", "\u2028", "\u3000", "\ufeff", "\x00", "\u200b", "²", "Ⅷ", "ª", "\u0301",
+    "'a??/\n", "'ab\\\n", "\"a??/\n", "\"ab\\\n", "'??/\n", "/* a??/\n", "// a??/\n", "'a\t", "\"a\tb\" ",
     "1e", "1e+", "1.2.3", "089", "0b12", "1uu", "0x1e+3", "0xx1", "1.0q", "0x", ".", "..", "'\\q'", "\"\\x\"", "'\\777'",
 ]
 
